@@ -4,6 +4,7 @@ Line driver for C17 (same op lines as C16, see `Driver/C16.lean`).
 
     code=<ok|sig|payload|PANIC> validated=<sorted SignedAddr|-> fallback=<list|-> cw=<bits validated copy>/<bits other copy>
 
+Pre-operations (`P=` field, see `Driver/C16.lean`) are applied to the copy that is validated.
 The `CheckWitness` bits range over the sorted union of what the two copies report through `GetSignatureAddresses`.
 All distinct outputs of the recorded-defect variants are printed, joined by ` ## ` (the shipped fallback derivation
 first).
@@ -14,33 +15,35 @@ open OntVerif.Util OntVerif.Model.Tx OntVerif.Model.SigCheck OntVerif.Driver.C16
 def bitsW (univ : List String) (as : List Addr) : String :=
   if univ.isEmpty then "-" else String.join (univ.map fun u => if (as.map hexOf).contains u then "1" else "0")
 
-def outFor (cfg : Cfg) (o : Orc) (tx : Tx) : String :=
+def outFor (cfg : Cfg) (o : Orc) (tx : Tx) (ops : List PreOp) : String :=
   let C := mkCrypto o
-  let (code, addrs) := verifyTransaction cfg C (fun _ => o.wasm) tx
+  -- copy A: pre-operations, then the validator; copy B: untouched
+  let (_, o1) := runPres cfg C (fun _ => o.wasm) ⟨tx, []⟩ ops
+  let (code, o2) := verifyObj cfg C (fun _ => o.wasm) o1
   match code with
   | .panic => "code=PANIC validated=- fallback=- cw=-/-"
   | _ =>
     let validated := match code with
-      | .noError | .transactionPayload => addrSetW addrs
+      | .noError | .transactionPayload => addrSetW o2.signedAddr
       | _ => "-"
-    let seenA := seen cfg C true tx
-    let fb := seen cfg C false tx
+    let seenA := (getSigAddrs cfg C.toLib o2).1
+    let fb := (getSigAddrs cfg C.toLib ⟨tx, []⟩).1
     let univ := (seenA ++ fb).foldl (fun acc a => insertStr (hexOf a) acc) []
     s!"code={codeW code} validated={validated} fallback={addrListW fb} cw={bitsW univ seenA}/{bitsW univ fb}"
 
 def cfgs17 : List Cfg :=
-  [.asShipped, .sound].flatMap fun f => [.asShipped, .sound].flatMap fun d => [.asShipped, .sound].map fun p => ⟨d, p, f⟩
+  [⟨.asShipped, .asShipped⟩, ⟨.sound, .asShipped⟩, ⟨.asShipped, .sound⟩, ⟨.sound, .sound⟩]
 
 def handle (line : String) : String :=
   match parseLine line with
   | none => "bad-op"
-  | some (raw, o) =>
+  | some (raw, o, ops) =>
     match fromRawBytes noRlp raw with
     | .err _ => "deser-err"
     | .panic => "PANIC-decode"
     | .ok tx _ =>
       match tx.payload with
       | .eip _ => "eip"
-      | _ => " ## ".intercalate (dedup (cfgs17.map fun cfg => outFor cfg o tx))
+      | _ => " ## ".intercalate (dedup (cfgs17.map fun cfg => outFor cfg o tx ops))
 
 end OntVerif.Driver.C17
